@@ -8,6 +8,7 @@
 #include <rime/config/config_compiler.h>
 #include <rime/config/config_types.h>
 #include <rime/config/plugins.h>
+#include <rime/verif_deploy_hooks.h>
 
 namespace rime {
 
@@ -35,8 +36,10 @@ bool SaveOutputPlugin::ReviewLinkOutput(ConfigCompiler* compiler,
   if (!resource->data->SaveToFile(temp_path)) {
     return false;
   }
+  RIME_VERIF_CRASHPOINT("SaveOutputPlugin:written");
   std::error_code ec;
   std::filesystem::rename(temp_path, file_path, ec);
+  RIME_VERIF_CRASHPOINT("SaveOutputPlugin:renamed");
   if (ec) {
     LOG(ERROR) << "failed to save compiled config '" << file_path
                << "': " << ec.message();
